@@ -33,7 +33,8 @@ EXTENDS Integers, Sequences, FiniteSets, TLC, Json
 CONSTANTS Producers,   \* set of producer ids (1, 2, ..)
           Msgs,        \* messages per producer
           Caps,        \* set of capacities tried; 0 = unbounded
-          Policies,    \* subset of {"queue", "burst", "conf"}
+          Policies,    \* subset of {"queue", "burst", "conf", "confd"}; confd = conflating over a dictionary output, where a
+                       \* send is either an effective delta (sets key KeyOf(v) to v) or one without effect (erases an absent key)
           Kinds,       \* set of allowed producer kinds, subset of {"try", "block"}
           WithStopper, \* a thread calls request_stop at some point
           WithEnd,     \* the end time may be reached while the loop waits
@@ -44,6 +45,7 @@ CONSTANTS Producers,   \* set of producer ids (1, 2, ..)
 
 VARIABLES
     Policy, Cap, stopAt,  \* the configuration, chosen in Init (never changes)
+    nofx,                 \* confd: the values whose delta has no effect (chosen in Init, never changes)
     \* queue policy storage (queue mutex)
     q, accepting, cval, cpend,
     \* sender control (control mutex)
@@ -65,17 +67,29 @@ VARIABLES
     bad,          \* "" or the name of the level A clause that an action violated at its decision point
     hist          \* gate steps <<thread, gate>>
 
-vars == <<Policy, Cap, stopAt, q, accepting, cval, cpend, closing, active, detached, pushPending, stopReq, epc, more, endReached,
+vars == <<Policy, Cap, stopAt, nofx, q, accepting, cval, cpend, closing, active, detached, pushPending, stopReq, epc, more, endReached,
           ppc, pidx, pres, padm, pkind, notified, spc, accepted, delivered, dropped, cycle, stopIssued, bad, hist>>
-NoHist == <<Policy, Cap, stopAt, q, accepting, cval, cpend, closing, active, detached, pushPending, stopReq, epc, more, endReached,
+NoHist == <<Policy, Cap, stopAt, nofx, q, accepting, cval, cpend, closing, active, detached, pushPending, stopReq, epc, more, endReached,
             ppc, pidx, pres, padm, pkind, notified, spc, accepted, delivered, dropped, cycle, stopIssued, bad>>
 
 Val(p, i) == p * 10 + i
+Conflating == Policy \in {"conf", "confd"}
+\* confd: the driver sends value p*1000+i-1 for Val(p, i) and writes dictionary key (that value) % 3
+KeyOf(v) == ((v \div 10) * 1000 + (v % 10) - 1) % 3
+SetMax(A) == CHOOSE a \in A : \A b \in A : b <= a
+LastWithKey(s, k) == LET c == {i \in 1..Len(s) : KeyOf(s[i]) = k} IN IF c = {} THEN 0 ELSE s[SetMax(c)]
+\* the merged latest state of a sequence of effective deltas: the last value per key, ordered by key
+Merged(s) == SelectSeq([k \in 1..3 |-> LastWithKey(s, k - 1)], LAMBDA v : v # 0)
 Full == Cap # 0 /\ (IF Mutant = "full_gt" THEN Len(q) > Cap ELSE Len(q) >= Cap)
 RECURSIVE Flat(_)
 Flat(d) == IF d = <<>> THEN <<>> ELSE Head(d).vals \o Flat(Tail(d))
 NDelivered == Len(Flat(delivered))
-Undelivered == IF Policy = "conf" THEN (IF cpend THEN 1 ELSE 0) ELSE Len(accepted) - NDelivered - dropped
+IndexIn(s, v) == LET c == {i \in 1..Len(s) : s[i] = v} IN IF c = {} THEN 0 ELSE CHOOSE i \in c : TRUE
+\* confd (level A, from the history alone): the accepted effective deltas after the newest one that a delivery has shown
+CovedUpTo == LET f == Flat(delivered) IN IF f = <<>> THEN 0 ELSE SetMax({IndexIn(accepted, f[i]) : i \in 1..Len(f)})
+Undelivered == IF Policy = "conf" THEN (IF cpend THEN 1 ELSE 0)
+               ELSE IF Policy = "confd" THEN Len(accepted) - CovedUpTo
+               ELSE Len(accepted) - NDelivered - dropped
 SourceStopped == epc \in {"quiesce", "done"}      \* the stop critical section of the queue storage has run
 StopKnown == stopIssued \/ closing \/ SourceStopped
 Gate(th, g) == hist' = Append(hist, <<th, g>>)
@@ -117,16 +131,26 @@ PCheck(p) == /\ ppc[p] = "check"
              /\ PUnch
 
 \* admission (shared by try_send, send_blocking without waiting, and a woken blocked sender)
-Admit(p) == /\ accepted' = Append(accepted, Val(p, pidx[p]))
+Admit(p) == \* a dictionary delta without effect is accepted but adds nothing to the values to deliver
+            /\ accepted' = IF Val(p, pidx[p]) \in nofx THEN accepted ELSE Append(accepted, Val(p, pidx[p]))
             /\ pres' = [pres EXCEPT ![p] = TRUE]
             /\ padm' = [padm EXCEPT ![p] = TRUE]
             /\ bad' = IF bad # "" THEN bad
                       ELSE IF SourceStopped THEN "C16.accepted_after_stop"
-                      ELSE IF Policy # "conf" /\ Cap # 0 /\ Len(accepted) - NDelivered - dropped + 1 > Cap THEN "C16.capacity_exceeded"
+                      ELSE IF ~Conflating /\ Cap # 0 /\ Len(accepted) - NDelivered - dropped + 1 > Cap THEN "C16.capacity_exceeded"
                       ELSE ""
             /\ IF Policy = "conf"
                THEN /\ cval' = Val(p, pidx[p]) /\ cpend' = TRUE /\ UNCHANGED q
                     /\ ppc' = [ppc EXCEPT ![p] = IF ~cpend THEN "mark" ELSE "leave"]
+               ELSE IF Policy = "confd"
+               \* ConflatingPolicyStorage::try_send: apply_delta skips a delta without effect; pending = pending || modified();
+               \* wake_required = pending && !was_pending.  q is the accumulator (the effective deltas since the last take).
+               \* mutant pending_last: pending = modified() - the flag follows the last delta only
+               THEN LET fx == Val(p, pidx[p]) \notin nofx
+                        np == IF fx THEN TRUE ELSE IF Mutant = "pending_last" THEN FALSE ELSE cpend
+                    IN /\ q' = IF fx THEN Append(q, Val(p, pidx[p])) ELSE q
+                       /\ cpend' = np /\ UNCHANGED cval
+                       /\ ppc' = [ppc EXCEPT ![p] = IF np /\ ~cpend THEN "mark" ELSE "leave"]
                ELSE /\ q' = Append(q, Val(p, pidx[p])) /\ UNCHANGED <<cval, cpend>>
                     \* mutant wake_after_push: was_empty computed after push_back - never true
                     /\ ppc' = [ppc EXCEPT ![p] = IF q = <<>> /\ Mutant # "wake_after_push" THEN "mark" ELSE "leave"]
@@ -136,9 +160,9 @@ Refuse(p, justified) == /\ ppc' = [ppc EXCEPT ![p] = "leave"] /\ pres' = [pres E
                         /\ UNCHANGED <<q, cval, cpend, accepted, padm>>
 
 PSend(p) == /\ ppc[p] = "send"
-            /\ Gate(PName(p), IF Policy = "conf" THEN "cf_try_send_pre" ELSE IF pkind[p] = "block" THEN "pq_send_blocking_pre" ELSE "pq_try_send_pre")
+            /\ Gate(PName(p), IF Conflating THEN "cf_try_send_pre" ELSE IF pkind[p] = "block" THEN "pq_send_blocking_pre" ELSE "pq_try_send_pre")
             /\ IF ~accepting THEN Refuse(p, StopKnown) /\ UNCHANGED notified
-               ELSE IF Policy # "conf" /\ Full
+               ELSE IF ~Conflating /\ Full
                     THEN IF pkind[p] = "try"
                          THEN Refuse(p, (Cap # 0 /\ Len(accepted) - NDelivered - dropped >= Cap) \/ StopKnown) /\ UNCHANGED notified
                          ELSE /\ ppc' = [ppc EXCEPT ![p] = "blocked"] /\ notified' = notified \ {p}
@@ -222,9 +246,10 @@ EPost == /\ epc = "post"
          /\ EUnch
 
 \* graph.cpp push phase: reset_push_update_pending once per cycle
+\* mutant late_reset: the flag is only read here and cleared after the push sources have been evaluated (ELateReset)
 EReset == /\ epc = "reset"
-          /\ Gate("e", "rt_reset_push_pre")
-          /\ pushPending' = FALSE
+          /\ IF Mutant = "late_reset" THEN UNCHANGED <<pushPending, hist>>
+             ELSE Gate("e", "rt_reset_push_pre") /\ pushPending' = FALSE
           /\ cycle' = cycle + 1
           /\ epc' = IF pushPending THEN "pop" ELSE "head"
           /\ UNCHANGED <<q, accepting, cval, cpend, closing, active, detached, stopReq, more, endReached, notified, delivered, dropped>>
@@ -253,7 +278,14 @@ EPop == /\ epc = "pop"
                   /\ cpend' = FALSE /\ more' = FALSE
                   /\ delivered' = IF cpend THEN Append(delivered, [vals |-> <<cval>>, cycle |-> cycle]) ELSE delivered
                   /\ UNCHANGED <<q, cval, notified>>
-        /\ epc' = IF more' /\ Mutant # "no_remark" THEN "remark" ELSE "head"
+             [] Policy = "confd" ->
+                  \* take_accumulated: nothing unless pending (the accumulator keeps what it holds)
+                  /\ Gate("e", "cf_take_pre")
+                  /\ cpend' = FALSE /\ more' = FALSE
+                  /\ q' = IF cpend THEN <<>> ELSE q
+                  /\ delivered' = IF cpend THEN Append(delivered, [vals |-> Merged(q), cycle |-> cycle]) ELSE delivered
+                  /\ UNCHANGED <<cval, notified>>
+        /\ epc' = IF more' /\ Mutant # "no_remark" THEN "remark" ELSE IF Mutant = "late_reset" THEN "lreset" ELSE "head"
         /\ UNCHANGED <<accepting, closing, active, detached, pushPending, stopReq, endReached, dropped, cycle>>
         /\ EUnch
 
@@ -261,9 +293,17 @@ EPop == /\ epc = "pop"
 ERemark == /\ epc = "remark"
            /\ Gate("e", "rt_mark_push_pre")
            /\ pushPending' = IF stopReq THEN pushPending ELSE TRUE
-           /\ epc' = "head"
+           /\ epc' = IF Mutant = "late_reset" THEN "lreset" ELSE "head"
            /\ UNCHANGED <<q, accepting, cval, cpend, closing, active, detached, stopReq, more, endReached, notified, delivered, dropped, cycle>>
            /\ EUnch
+
+\* mutant late_reset only: the wake flag is acknowledged after the push phase - a re-arm made during the phase is wiped
+ELateReset == /\ epc = "lreset"
+              /\ Gate("e", "rt_reset_push_pre")
+              /\ pushPending' = FALSE
+              /\ epc' = "head"
+              /\ UNCHANGED <<q, accepting, cval, cpend, closing, active, detached, stopReq, more, endReached, notified, delivered, dropped, cycle>>
+              /\ EUnch
 
 \* push_source_stop
 EClose == /\ epc = "close"
@@ -273,10 +313,10 @@ EClose == /\ epc = "close"
           /\ EUnch
 
 EQStop == /\ epc = "qstop"
-          /\ Gate("e", IF Policy = "conf" THEN "cf_stop_pre" ELSE "pq_stop_pre")
+          /\ Gate("e", IF Conflating THEN "cf_stop_pre" ELSE "pq_stop_pre")
           \* mutant late_close: values cleared but the accepting flag left set
           /\ accepting' = (Mutant = "late_close") /\ q' = <<>> /\ cpend' = FALSE
-          /\ dropped' = dropped + (IF Policy = "conf" THEN 0 ELSE Len(q))
+          /\ dropped' = dropped + (IF Conflating THEN 0 ELSE Len(q))
           /\ notified' = notified \cup Blocked       \* notify_all
           /\ epc' = "quiesce"
           /\ UNCHANGED <<cval, closing, active, detached, pushPending, stopReq, more, endReached, delivered, cycle>>
@@ -306,20 +346,22 @@ Internal == EHead \/ EWake \/ EPost \/ EQuiesce \/ (\E p \in Producers : PCheck(
 InternalEnabled ==
     \/ epc \in {"head", "post"} \/ (epc = "waiting" /\ (pushPending \/ stopReq)) \/ (epc = "quiesce" /\ active = 0)
     \/ \E p \in Producers : ppc[p] \in {"check", "ret"} \/ (ppc[p] = "blocked" /\ p \in notified) \/ (ppc[p] = "idle" /\ pidx[p] <= Msgs)
-GateStep == EAdvance \/ EReset \/ EPop \/ ERemark \/ EClose \/ EQStop \/ SStop \/ SCall \/ EEnd
+GateStep == EAdvance \/ EReset \/ EPop \/ ERemark \/ ELateReset \/ EClose \/ EQStop \/ SStop \/ SCall \/ EEnd
             \/ (\E p \in Producers : PEnter(p) \/ PSend(p) \/ PMark(p) \/ PLeave(p))
 
 Finished == epc = "done" /\ spc \in {"done", IF WithStopper THEN "done" ELSE "idle"} /\ \A p \in Producers : ppc[p] = "idle" /\ pidx[p] > Msgs
 Finish == /\ Finished /\ bad # "emitted"
           /\ Emit
           /\ PrintT(<<"PQ", ToJson([policy |-> Policy, cap |-> Cap, msgs |-> Msgs, kinds |-> [p \in Producers |-> pkind[p]],
+                                    fx |-> [p \in Producers |-> [i \in 1..Msgs |-> IF Val(p, i) \in nofx THEN 0 ELSE 1]],
                                     sched |-> hist, accepted |-> accepted, delivered |-> delivered, bad |-> bad])>>)
           /\ bad' = "emitted"
           /\ UNCHANGED <<q, accepting, cval, cpend, closing, active, detached, pushPending, stopReq, epc, more, endReached,
                          ppc, pidx, pres, padm, pkind, notified, spc, accepted, delivered, dropped, cycle, stopIssued, hist>>
 
 Init == /\ stopAt \in StopAts
-        /\ Policy \in Policies /\ Cap \in (IF Policy = "conf" THEN {0} ELSE Caps)
+        /\ Policy \in Policies /\ Cap \in (IF Conflating THEN {0} ELSE Caps)
+        /\ nofx \in (IF Policy = "confd" THEN SUBSET {Val(p, i) : p \in Producers, i \in 1..Msgs} ELSE {{}})
         /\ q = <<>> /\ accepting = TRUE /\ cval = 0 /\ cpend = FALSE
         /\ closing = FALSE /\ active = 0 /\ detached = FALSE
         /\ pushPending = FALSE /\ stopReq = FALSE
@@ -334,21 +376,30 @@ Init == /\ stopAt \in StopAts
 
 Next == /\ IF Replay THEN (IF InternalEnabled THEN Internal ELSE (GateStep \/ Finish))
            ELSE (Internal \/ GateStep)
-        /\ UNCHANGED <<Policy, Cap, stopAt>>
+        /\ UNCHANGED <<Policy, Cap, stopAt, nofx>>
 
-EvalNext == (EHead \/ EAdvance \/ EWake \/ EPost \/ EReset \/ EPop \/ ERemark \/ EClose \/ EQStop \/ EQuiesce) /\ UNCHANGED <<Policy, Cap, stopAt>>
-ProdNext(p) == (PCall(p) \/ PEnter(p) \/ PCheck(p) \/ PSend(p) \/ PUnblock(p) \/ PMark(p) \/ PLeave(p) \/ PRet(p)) /\ UNCHANGED <<Policy, Cap, stopAt>>
+EvalNext == (EHead \/ EAdvance \/ EWake \/ EPost \/ EReset \/ EPop \/ ERemark \/ ELateReset \/ EClose \/ EQStop \/ EQuiesce) /\ UNCHANGED <<Policy, Cap, stopAt, nofx>>
+ProdNext(p) == (PCall(p) \/ PEnter(p) \/ PCheck(p) \/ PSend(p) \/ PUnblock(p) \/ PMark(p) \/ PLeave(p) \/ PRet(p)) /\ UNCHANGED <<Policy, Cap, stopAt, nofx>>
 Spec == Init /\ [][Next]_vars
 FairSpec == Init /\ [][Next]_vars /\ WF_vars(EvalNext) /\ \A p \in Producers : WF_vars(ProdNext(p))
 
 ----------------------------------------------------------------------------
 (* Level A: C16 *)
-IndexIn(s, v) == LET c == {i \in 1..Len(s) : s[i] = v} IN IF c = {} THEN 0 ELSE CHOOSE i \in c : TRUE
 IsPrefix(a, b) == Len(a) <= Len(b) /\ \A i \in 1..Len(a) : a[i] = b[i]
 
 \* delivered values are, in order, a prefix of the accepted ones (conflating: an increasing selection of them)
+\* confd: every delivery is the merged latest state of the accepted effective deltas after the previous delivery's newest
+\* one up to its own newest one
+RECURSIVE MergedRuns(_, _)
+MergedRuns(ds, n) ==
+    IF ds = <<>> THEN TRUE
+    ELSE LET v == Head(ds).vals
+             idx == {IndexIn(accepted, v[i]) : i \in 1..Len(v)}
+         IN /\ v # <<>> /\ 0 \notin idx
+            /\ LET j == SetMax(idx) IN j > n /\ v = Merged(SubSeq(accepted, n + 1, j)) /\ MergedRuns(Tail(ds), j)
 DeliveredPrefix ==
-    IF Policy = "conf"
+    IF Policy = "confd" THEN MergedRuns(delivered, 0)
+    ELSE IF Policy = "conf"
     THEN LET f == Flat(delivered) IN
          /\ \A i \in 1..Len(f) : IndexIn(accepted, f[i]) # 0
          /\ \A i \in 1..(Len(f) - 1) : IndexIn(accepted, f[i]) < IndexIn(accepted, f[i + 1])
@@ -358,7 +409,7 @@ OncePerCycle ==
     /\ \A i \in 1..(Len(delivered) - 1) : delivered[i].cycle < delivered[i + 1].cycle
     /\ Policy = "queue" => \A i \in 1..Len(delivered) : Len(delivered[i].vals) = 1
     /\ LET f == Flat(delivered) IN \A i, j \in 1..Len(f) : i # j => f[i] # f[j]
-CapacityBound == (Policy # "conf" /\ Cap # 0) => Len(accepted) - NDelivered - dropped <= Cap
+CapacityBound == (~Conflating /\ Cap # 0) => Len(accepted) - NDelivered - dropped <= Cap
 \* refusals only when full or stopped, blocking failure only after stop, nothing accepted after stop, results truthful
 DecisionsOK == bad \in {"", "emitted"}
 \* the finite-trace reading of "every accepted value is delivered if the run continues" used by PushTrace.tla:
@@ -366,7 +417,7 @@ DecisionsOK == bad \in {"", "emitted"}
 InFlightAdmit == \E p \in Producers : ppc[p] # "idle" /\ padm[p]
 NoSleepOnPending == (epc = "waiting" /\ Undelivered > 0 /\ ~stopIssued /\ ~InFlightAdmit) => pushPending
 \* coherence of the model itself
-QueueMatches == Policy # "conf" => q = SubSeq(accepted, NDelivered + dropped + 1, Len(accepted))
+QueueMatches == ~Conflating => q = SubSeq(accepted, NDelivered + dropped + 1, Len(accepted))
 \* liveness (small instance, weak fairness): everything accepted is eventually delivered unless the run stops
 EventuallyDelivered == <>[](Undelivered = 0 \/ closing)
 \* a blocking send does not hang: it is admitted or refused once there is room or the source has stopped
